@@ -192,6 +192,8 @@ op('addrownumbers', ['g'], lambda t: etl.addrownumbers(t), S0)
 op('addrownumbers(5,-1)', ['g'], lambda t: etl.addrownumbers(t, 5, -1, 'n'), S0)
 op('addcolumn(long)', ['g'], lambda t: etl.addcolumn(t, 'c', range(6000)), ('stream:0', 'c02only'), zero='skip')
 op('addcolumn', ['g'], lambda t: etl.addcolumn(t, 'c', [10, 20, 30]), (), zero='skip')
+op('addcolumn(values of another table)', ['g', 'g'], lambda t, u: etl.addcolumn(t, 'c', etl.values(u, 'v')),
+   ('stream:0', 'passall'), zero='skip')
 op('addcolumn(short)', ['g'], lambda t: etl.addcolumn(t, 'c', [10, 20], index=1),
    zero=lambda ts: [(None, 10, None, None), (None, 20, None, None)])
 op('addfieldusingcontext', ['g'],
